@@ -612,6 +612,7 @@ func flabGen(seed uint64, tier string) KScenario {
 	switch sp.Kind {
 	case "qf":
 		nfix := r.Pick(0, 0, 0, 1, 1, 2, 3)
+		explicit := false
 		F := 0
 		for i := 0; i < nfix; i++ {
 			l := r.Pick(1, 2, 17, 62, 63, 64, 100, 300, r.Range(1, 500))
@@ -619,6 +620,12 @@ func flabGen(seed uint64, tier string) KScenario {
 			F += l
 		}
 		sp.Frames = append(sp.Frames, flabFrame{K: "c", O: F})
+		if nfix > 0 && L > F && r.P(0.2) {
+			// every length explicit: the layout tiles exactly this ClientHello (any shorter slice - a later datagram's
+			// remainder, a retransmitted piece - does not fit it and must be refused, never zero-extended)
+			sp.Frames[len(sp.Frames)-1].L = L - F
+			explicit = true
+		}
 		ovh := 5 * (nfix + 1)
 		for n := r.Pick(0, 0, 1, 3); n > 0; n-- {
 			sp.Frames = append(sp.Frames, flabFrame{K: "g"})
@@ -643,6 +650,11 @@ func flabGen(seed uint64, tier string) KScenario {
 				// some slice (a later datagram's remainder, a retransmitted piece) can be
 				// shorter than the fixed part of the layout
 				sc.Class = "qf-short-slice"
+			}
+			if explicit && sc.Class == "qf-short-slice" {
+				// (a class of its own: without a remainder frame a *longer* slice - the second ClientHello after a
+				// HelloRetryRequest - is silently cut off, which is the known non-tiling defect; a shorter one must be refused)
+				sc.Class = "qf-explicit"
 			}
 		}
 		if len(sp.Frames) > 0 && r.P(0.06) {
